@@ -489,7 +489,8 @@ func PromoteOptionsToConstructor(selector Selector, optionNames []string) Rewrit
 				arg.Type.Nullable = false
 
 				builders[i].Constructor.Args = append(builders[i].Constructor.Args, arg)
-				builders[i].Constructor.Assignments = append(builders[i].Constructor.Assignments, opt.Assignments[0])
+				// the option keeps its own assignment: later rules rewriting one must not reach the other
+				builders[i].Constructor.Assignments = append(builders[i].Constructor.Assignments, opt.Assignments[0].DeepCopy())
 
 				builders[i].AddToVeneerTrail(fmt.Sprintf("PromoteOptionsToConstructor[%s]", optName))
 			}
